@@ -72,8 +72,8 @@ struct C05 : Scenario {
         else if (r.chance(0.12)) { c.zoom = std::round(r.uniform(1.6, 2.2) * 100) / 100; c.rotations += std::round(4 * Td); }  // broad starts (inside the 12-sigma grid to 2.7 sigma of the edge)
         // coarse stepping on a fine grid with a strong (still stable) wake: the per-step wake kick at equilibrium exceeds one energy cell
         if (!many && r.chance(tier == "quick" ? 0.0 : 0.08)) {   // (minute-long runs: thorough tier only)
-            if (r.chance(0.5)) { kind = 2; p.seti("kind", 2); c.useCSR = false; c.collimator = 0; }
-            double uz = r.unit(); c.zoom = uz < 0.4 ? 1 : uz < 0.8 ? std::round(r.uniform(1.6, 2.2) * 100) / 100 : std::round(r.uniform(0.15, 0.3) * 100) / 100;
+            if (r.chance(0.8)) { kind = 2; p.seti("kind", 2); c.useCSR = false; c.collimator = 0; }
+            double uz = r.unit(); c.zoom = uz < 0.25 ? 1 : uz < 0.85 ? std::round(r.uniform(1.6, 2.2) * 100) / 100 : std::round(r.uniform(0.15, 0.3) * 100) / 100;
             c.grid = r.range(224, 256); c.steps = r.range(50, 58);
             if (kind == 2) { c.gap = 0.01; c.wallcond = std::round(r.uniform(1.4e6, 4e6)); c.currents = {r.uniform(6e-3, 1e-2)}; }   // a narrow, poorly conducting chamber: order-one distortion
             else if (kind == 0) c.currents = {r.uniform(1e-3, 1.5e-3)}; else if (kind == 3) c.currents = {r.uniform(3e-3, 5e-3)};
